@@ -51,6 +51,11 @@ func dumpEdges(module, cfg string) []*sessrep.Graph {
 }
 
 func tourAll(run *evid.Run, gs []*sessrep.Graph, maxEdges int) sessrep.Stats {
+	return tourSome(run, gs, nil)
+}
+
+func tourSome(run *evid.Run, gs []*sessrep.Graph, want func(*sessrep.Edge) bool) sessrep.Stats {
+	maxEdges := 0
 	var mu sync.Mutex
 	var total sessrep.Stats
 	var wg sync.WaitGroup
@@ -67,7 +72,7 @@ func tourAll(run *evid.Run, gs []*sessrep.Graph, maxEdges int) sessrep.Stats {
 			sem <- struct{}{}
 			defer func() { <-sem }()
 			rng := rand.New(rand.NewSource(run.Seed*1000 + int64(i)))
-			st, err := sessrep.Tour(g, run, rng, maxEdges)
+			st, err := sessrep.TourFiltered(g, run, rng, maxEdges, want)
 			mu.Lock()
 			defer mu.Unlock()
 			if err != nil && firstErr == nil {
